@@ -5,6 +5,8 @@ use std::{
     sync::Arc,
 };
 
+use indexmap::IndexSet;
+
 use crate::common::Identifier;
 
 pub(crate) trait MapView: fmt::Debug {
@@ -261,15 +263,17 @@ impl<V: fmt::Debug + Clone, T: MapView<Value = V> + Clone> MapView for LimitedMa
 #[derive(Debug)]
 pub(crate) struct MergedMapView<V: fmt::Debug + Clone>(
     pub Vec<Arc<dyn MapView<Value = V>>>,
-    HashSet<Identifier>,
+    // insertion-ordered, so that `keys()` and `iter()` do not vary from run to run
+    IndexSet<Identifier>,
 );
 
 impl<V: fmt::Debug + Clone> MergedMapView<V> {
     pub fn new(maps: Vec<Arc<dyn MapView<Value = V>>>) -> Self {
-        let unique_keys: HashSet<Identifier> = maps.iter().fold(HashSet::new(), |mut keys, map| {
-            keys.extend(&map.keys());
-            keys
-        });
+        let unique_keys: IndexSet<Identifier> =
+            maps.iter().fold(IndexSet::new(), |mut keys, map| {
+                keys.extend(map.keys());
+                keys
+            });
 
         Self(maps, unique_keys)
     }
